@@ -307,6 +307,10 @@ mod non_wasm {
 
         // Try read lock first
         {
+            #[cfg(feature = "verif-hooks")]
+            crate::verif_hooks::point("schema-cache:before-read");
+            #[cfg(feature = "verif-hooks")]
+            let _released = crate::verif_hooks::PointOnDrop("schema-cache:read-released");
             let cache = SCHEMA_CACHE.read().unwrap();
             if let Some(schema) = cache.get(&key) {
                 return Ok(schema.clone());
@@ -314,6 +318,10 @@ mod non_wasm {
         }
 
         // Need to compile - get write lock
+        #[cfg(feature = "verif-hooks")]
+        crate::verif_hooks::point("schema-cache:before-write");
+        #[cfg(feature = "verif-hooks")]
+        let _released = crate::verif_hooks::PointOnDrop("schema-cache:write-released");
         let mut cache = SCHEMA_CACHE.write().unwrap();
 
         // Double-check pattern
